@@ -192,6 +192,16 @@ TLitVerdict == IsOp("litverdict") /\ LitVerdict(ev.macro, ev.bytes) /\ Match(out
 TDeriveProg == IsOp("derive") /\ DeriveProg(ev.decl) /\ Match(out')
 TDeriveVerdict == IsOp("deriveverdict") /\ DeriveVerdict(ev.decl, ev.malformed) /\ Match(out')
 
+\* the > 2^32-bit sequence (Giant.tla); ev.c names the codec
+TGObs == IsOp("gobs") /\ GObs(ev.c, ev.path, ev.probes, IF ev.how \in {"get", "seqget", "iternth"} THEN "get" ELSE "nth") /\ Match(out')
+TGView == IsOp("gview") /\ GViewA(ev.c, ev.path) /\ Match(out')
+TGIt == IsOp("git") /\ GIt(ev.c, ev.path, ev.kind, ev.w, ev.skip, ev.take) /\ Match(out')
+TGEdit == IsOp("gedit") /\ GEdit(ev.c, ev.e, ev.probes) /\ Match(out')
+TGInt == IsOp("gint") /\ GInt(ev.c, ev.path) /\ Match(out')
+TGEq == IsOp("geq") /\ GEq(ev.c, ev.a, ev.b) /\ Match(out')
+TGCopy == IsOp("gcopy") /\ GCopy(ev.c, ev.path, ev.t) /\ Match(out')
+TGKmer == IsOp("gkmer") /\ GKmer(ev.c, ev.path, ev.k) /\ Match(out')
+
 \* a known finding taken as observed
 TDeviation ==
     /\ l <= Len(Rec) /\ Deviation /\ l' = l + 1
@@ -213,6 +223,7 @@ TraceNext ==
     \/ TConvert \/ TTextBase
     \/ TToAmino \/ TTryToAmino \/ TTryToCodon \/ TTableNew \/ TTableAmino \/ TTableCodon
     \/ TCell \/ TCodecInfo
+    \/ TGObs \/ TGView \/ TGIt \/ TGEdit \/ TGInt \/ TGEq \/ TGCopy \/ TGKmer
     \/ TLitProg \/ TKmerLit \/ TLitVerdict \/ TDeriveProg \/ TDeriveVerdict
     \/ TDeviation
 
